@@ -18,6 +18,7 @@ from vmon import contracts
 from vmon.core import outcome
 
 PROPERTY_ID = "C11"
+REPO_TEST_MODULES = ["test_psbt", "test_psbt_helper"]  # thorough tier: run as an extra workload under the contracts
 RULE = (
     "cases = (wallet kind, m-of-n, inputs, output layout, tamper class) PSBTs given to PSBT.parse + "
     "describe_basic_multisig (with the PSBT's own xpubs or an explicit hdpubkey_map); honest ones must be summarised "
